@@ -372,6 +372,19 @@ func init() {
 					history = append(history, nameCase{Name: sname, Class: "grammar"})
 				}
 			})
+			// constructor history: a hand-built configuration whose Raw text is a well-formed, unregistered suite string that
+			// says something else is handed to NewSuite BEFORE that string has ever been parsed; parsing the string
+			// afterwards must still yield what the string says
+			for i, k := range history {
+				if i%3 != 0 || k.Class != "grammar" {
+					continue
+				}
+				monCatch(func() {
+					otp.NewSuite(otp.SuiteConfig{Raw: k.Name, Hash: otp.SHA512, Digits: 9, IncludeCounter: true})
+					otp.NewSuite(otp.SuiteConfig{Raw: k.Name, Hash: otp.SHA1, Digits: 4, IncludeChallenge: true, Challenge: otp.ChallengeHex10, IncludeSession: true})
+				})
+				r.Count("constructor_history_steps", 1)
+			}
 			parallelJudge(c, cases, judgeName)
 			// the history is judged sequentially, in order, twice
 			for pass := 0; pass < 2; pass++ {
